@@ -56,8 +56,17 @@ def _eligible(fn):
         if not (isinstance(d, ast.Name) and d.id == "staticmethod"):
             return False
     a = fn.args
-    if a.vararg or a.kwarg or a.kwonlyargs or a.posonlyargs:
+    if a.kwarg or a.kwonlyargs or a.posonlyargs:
         return False
+    if a.vararg:
+        # `*parts` is accepted when it is only ever forwarded as `*parts`
+        v = a.vararg.arg
+        for n in ast.walk(fn):
+            if isinstance(n, ast.Name) and n.id == v and not isinstance(getattr(n, "_parent", None), ast.Starred):
+                return False
+            if isinstance(n, ast.Starred) and isinstance(n.value, ast.Name) and n.value.id == v \
+                    and not isinstance(getattr(n, "_parent", None), ast.Call):
+                return False
     for n in ast.walk(fn):
         if isinstance(n, (ast.Global, ast.Nonlocal)):
             return False
@@ -107,6 +116,17 @@ class _Subst(ast.NodeTransformer):
     def __init__(self, m):
         self.m = m
 
+    def visit_Call(self, node):
+        self.generic_visit(node)
+        new_args = []
+        for a in node.args:
+            if isinstance(a, ast.Starred) and isinstance(a.value, ast.Name) and ("*" + a.value.id) in self.m:
+                new_args.extend(copy.deepcopy(x) for x in self.m["*" + a.value.id])
+            else:
+                new_args.append(a)
+        node.args = new_args
+        return node
+
     def visit_Name(self, node):
         if node.id in self.m and isinstance(node.ctx, ast.Load):
             return copy.deepcopy(self.m[node.id])
@@ -135,7 +155,10 @@ def _bind_args(fn, call, is_method):
         dmap[p] = d
     if any(isinstance(a, ast.Starred) for a in call.args) or any(k.arg is None for k in call.keywords):
         return None
-    if len(call.args) > len(params):
+    star = None
+    if fn.args.vararg:
+        star = (fn.args.vararg.arg, list(call.args[len(params):]))
+    elif len(call.args) > len(params):
         return None
     bound = {}
     for p, a in zip(params, call.args):
@@ -149,7 +172,13 @@ def _bind_args(fn, call, is_method):
             if p not in dmap:
                 return None
             bound[p] = dmap[p]
-    return [(p, bound[p]) for p in params]
+    out = [(p, bound[p]) for p in params]
+    if star is not None:
+        n_uses = sum(1 for n in ast.walk(fn) if isinstance(n, ast.Starred) and isinstance(n.value, ast.Name) and n.value.id == star[0])
+        if not all(_simple(a) for a in star[1]) and n_uses != 1:
+            return None
+        out.append(("*" + star[0], star[1]))
+    return out
 
 
 def _has_call(e):
@@ -250,7 +279,7 @@ def _expansion(fn, call, is_method, caller, context, target=None):
     if not body:
         body = [ast.Pass()]
     # names of the helper that collide with names of the caller are renamed
-    helper_locals = _stored_names(body) | {p for p, _ in binding}
+    helper_locals = _stored_names(body) | {p for p, _ in binding if not p.startswith("*")}
     caller_names = _all_names([caller]) - {"self"}
     if context == "assign" and isinstance(target, ast.Name) and not any(
             isinstance(n, ast.Name) and n.id == target.id for a in list(call.args) + [k.value for k in call.keywords]
@@ -269,6 +298,9 @@ def _expansion(fn, call, is_method, caller, context, target=None):
     pre = []
     sub = {}
     for p, a in binding:
+        if p.startswith("*"):
+            sub[p] = a
+            continue
         p2 = ren.get(p, p)
         if _simple(a) and p2 not in assigned and not any(isinstance(n, ast.Name) and n.id in assigned for n in ast.walk(a)):
             sub[p2] = a
@@ -406,7 +438,7 @@ def _inline_into(caller, helper, hname, is_method, clsname):
                 self.generic_visit(node)
                 if _call_matches(node, hname, is_method, clsname):
                     binding = _bind_args(helper, node, is_method)
-                    if binding is not None and all(_simple(a) or _count_uses(expr_e, p) <= 1 for p, a in binding):
+                    if binding is not None and all(p.startswith("*") or _simple(a) or _count_uses(expr_e, p) <= 1 for p, a in binding):
                         e = copy.deepcopy(expr_e)
                         e = _Subst({p: a for p, a in binding}).visit(e)
                         ast.copy_location(e, node)
